@@ -73,6 +73,13 @@ type lowPt struct {
 	Twice    bool     `json:"twice"`
 	V        lowVal   `json:"v"`
 	Den      lowVal   `json:"den"`
+	Op       string   `json:"op"`
+	Shape    []string `json:"shape"`
+	Holder   string   `json:"holder"`
+	Wn       bool     `json:"wn"`
+	Acc      string   `json:"acc"`
+	Idx      int      `json:"idx"`
+	NArgs    int      `json:"nargs"`
 }
 
 type lowPoint struct {
@@ -82,6 +89,10 @@ type lowPoint struct {
 		Temps     int      `json:"temps"`
 		Placement string   `json:"placement"`
 		Zeros     []string `json:"zeros"`
+		Sel       string   `json:"sel"`
+		Elem      string   `json:"elem"`
+		NElems    int      `json:"nelems"`
+		TypeForm  string   `json:"typeform"`
 	} `json:"low"`
 }
 
@@ -97,6 +108,8 @@ func (p lowPoint) describe() string {
 		return fmt.Sprintf("%s receiver .%s [%s]", p.Pt.Recv, p.Pt.M, p.Pt.Mode)
 	case "member":
 		return fmt.Sprintf("member access on %s (%d step(s)%s) in %s", p.Pt.Base, p.Pt.Steps, map[bool]string{true: ", two accesses", false: ""}[p.Pt.Twice], p.Pt.Ctx)
+	case "tuple":
+		return fmt.Sprintf("tuple %v (%s, with names: %v) %s %s component %d, %d argument(s)", p.Pt.Shape, p.Pt.Holder, p.Pt.Wn, p.Pt.Op, p.Pt.Acc, p.Pt.Idx, p.Pt.NArgs)
 	case "bigint":
 		return "big integer literal " + p.Pt.V.big().String()
 	case "bigrat":
@@ -117,6 +130,8 @@ func (p lowPoint) class() string {
 		return fmt.Sprintf("alias/%s/%s/%s", p.Pt.M, p.Pt.Mode, p.Pt.Recv)
 	case "member":
 		return fmt.Sprintf("member/%s/temporaries=%d", p.Pt.Ctx, p.Low.Temps)
+	case "tuple":
+		return fmt.Sprintf("tuple/%s/%s/%s/names=%v/args=%d", p.Pt.Op, p.Pt.Holder, p.Pt.Acc, p.Pt.Wn, p.Pt.NArgs)
 	}
 	return p.Pt.Rule + "/" + p.Low.Form
 }
@@ -455,6 +470,8 @@ func (w *lowWorld) build(p lowPoint) (name, ref, fail string) {
 		ref = fmt.Sprintf("var %s = %s.%s(%s)\n", name, recv, p.Pt.M, arg)
 	case "member":
 		ref = w.buildMember(p, name)
+	case "tuple":
+		ref = w.buildTuple(p, name)
 	case "bigint":
 		pkg.NewVarStart(token.NoPos, nil, name).UntypedBigInt(p.Pt.V.big()).EndInit(1)
 	case "bigrat":
@@ -588,7 +605,7 @@ func runC11(tier, replay string) {
 		pts = []lowPoint{p}
 		states, transitions = 1, 1
 	} else {
-		res, err := tlc.Run(tlc.Opts{SpecDir: SpecDir, Module: "Lower", Cfg: "INIT Init\nNEXT Next\nINVARIANTS BindOnce ArityConsistent ZeroComplete PlainGo HoistCount Emit\nCHECK_DEADLOCK FALSE\n", Workers: 4, Timeout: 20 * time.Minute,
+		res, err := tlc.Run(tlc.Opts{SpecDir: SpecDir, Module: "Lower", Cfg: "INIT Init\nNEXT Next\nINVARIANTS BindOnce ArityConsistent ZeroComplete PlainGo HoistCount TupleOrdinal Emit\nCHECK_DEADLOCK FALSE\n", Workers: 4, Timeout: 20 * time.Minute,
 			OnJSON: func(l string) {
 				var p lowPoint
 				if json.Unmarshal([]byte(l), &p) == nil && p.Pt.Rule != "" {
@@ -758,6 +775,9 @@ func runC11(tier, replay string) {
 			if p.Pt.Rule == "optional" {
 				want, got = rc.Decl(bt.name)+rc.Decl(bt.name+"f"), gc.Decl(bt.name)+gc.Decl(bt.name+"f")
 			}
+			if p.Pt.Rule == "tuple" { // the tuple type and the variable of the point are declarations of their own
+				want, got = rc.Decl(bt.name)+rc.Decl(bt.name+"T")+rc.Decl(bt.name+"v"), gc.Decl(bt.name)+gc.Decl(bt.name+"T")+gc.Decl(bt.name+"v")
+			}
 			if got != want {
 				run.Fail("lowering-differs/"+p.class(), fmt.Sprintf("%s: the emitted Go is not the documented lowering: %s\nemitted: %s", p.describe(), canonDiff(want, got), gc.Text(bt.name)), p)
 			}
@@ -767,7 +787,7 @@ func runC11(tier, replay string) {
 		run.Set("rule_"+r, n)
 	}
 	if replay == "" {
-		for _, r := range []string{"bti", "boolcast", "optional", "alias", "bigint", "bigrat", "member", "enum", "inline"} {
+		for _, r := range []string{"bti", "boolcast", "optional", "alias", "bigint", "bigrat", "member", "enum", "inline", "tuple"} {
 			if perRule[r] == 0 {
 				run.Infra(fmt.Errorf("rule %s has no point", r))
 			}
@@ -783,7 +803,7 @@ func runC11(tier, replay string) {
 	run.Set("exhaustive", true)
 	run.Set("rule", "a case = one point of Lower.tla's catalogue (extension pattern with its reference lowering) built with the real CodeBuilder; compared: typed canonical tree of the emitted declaration vs the reference lowering, go/types on both; big-number literals by exact value; distinct = distinct point")
 	run.Assume("'denotes the documented meaning' is decided structurally (same plain-Go program as the reference lowering), not by executing programs; the method table is a transcription of the documented mapping")
-	run.Assume("enumerators and inline closure calls are judged by executing the emitted lowering next to plain Go with instrumented operands (three condition schedules each); not in the catalogue: tuple casts")
+	run.Assume("enumerators and inline closure calls are judged by executing the emitted lowering next to plain Go with instrumented operands (three condition schedules each); tuple types: components by ordinal / X_i / name on a value, a defined type and a pointer, tuple literals with and without type, tuple casts")
 	run.Finish()
 }
 
